@@ -126,4 +126,200 @@ example : WFhistory TermHash 3 ([] : List (Nat × Term))
       .block 2 [(2, .leaf 32), (3, .leaf 33)] .commit ] := by
   simp [WFhistory, WFop, HiOp.abs, TermHash, List.range']
 
+/-! ### the updatable tree over a whole history -/
+
+/-- one `UpsertLeaf` call: (block number, position in block, tree position, value) -/
+structure Ups (α : Type) where
+  bn : Nat
+  bp : Nat
+  pos : Nat
+  val : α
+
+/-- run the upserts in order, collecting the roots returned; `none` as soon as one fails (duplicate root hash: a tree
+    state that recurs — excluded on the real chain, see C11) -/
+def runUps (H : HashAlg α) (n : Nat) : TreeDb α → List (Ups α) → Option (TreeDb α × List α)
+  | db, [] => some (db, [])
+  | db, u :: rest =>
+    match upsertLeaf H n db u.bn u.bp u.pos u.val with
+    | .ok (r, db') => (runUps H n db' rest).map (fun x => (x.1, r :: x.2))
+    | .error _ => none
+
+/-- the successive versions (leaf function, written positions) produced by a list of upserts -/
+def versions (f : Nat → α) (W : Nat → Prop) : List (Ups α) → List ((Nat → α) × (Nat → Prop))
+  | [] => []
+  | u :: rest => (updateFn f u.pos u.val, fun p => W p ∨ p = u.pos) :: versions (updateFn f u.pos u.val) (fun p => W p ∨ p = u.pos) rest
+
+/-- (block, position) keys strictly increasing along the list and above `(b0, p0)` -/
+def KeysInc : Nat × Nat → List (Ups α) → Prop
+  | _, [] => True
+  | k, u :: rest => (u.bn > k.1 ∨ (u.bn = k.1 ∧ u.bp > k.2)) ∧ KeysInc (u.bn, u.bp) rest
+
+def keyAfter (r : RootRow α) (k : Nat × Nat) : Prop := k.1 > r.blockNum ∨ (k.1 = r.blockNum ∧ k.2 > r.blockPos)
+
+theorem lastRoot_append (db' : TreeDb α) (rs : List (RootRow α)) (r : RootRow α) (hr : db'.roots = rs ++ [r])
+    (h : ∀ x ∈ rs, r.after x = true) : getLastRoot db' = some r := by
+  unfold getLastRoot
+  rw [hr, List.foldl_append]
+  simp only [List.foldl_cons, List.foldl_nil]
+  cases hb : rs.foldl (fun best r => match best with
+      | none => some r
+      | some b => if r.after b then some r else some b) none with
+  | none => rfl
+  | some b =>
+    simp only
+    have hmem : b ∈ rs := by
+      rcases getLastRoot_foldl_mem rs none b hb with h1 | h1
+      · exact h1
+      · simp at h1
+    rw [if_pos (h b hmem)]
+
+/-- what one successful upsert does to the tables: one more root row, nodes only added -/
+theorem upsertLeaf_shape (H : HashAlg α) (n : Nat) (db : TreeDb α) (bn bp i : Nat) (v root : α) (db' : TreeDb α)
+    (hup : upsertLeaf H n db bn bp i v = .ok (root, db')) :
+    db'.roots = db.roots ++ [{ hash := root, index := i, blockNum := bn, blockPos := bp }] ∧
+    ∃ ns, db'.rht = storeNodes db.rht ns := by
+  unfold upsertLeaf at hup
+  simp only at hup
+  split at hup
+  · simp at hup
+  · rename_i dbr hsr
+    simp only [Except.ok.injEq, Prod.mk.injEq] at hup
+    obtain ⟨e1, e2⟩ := hup
+    unfold storeRoot at hsr
+    split at hsr
+    · simp at hsr
+    · simp only [Except.ok.injEq] at hsr
+      subst hsr; subst e2
+      exact ⟨by rw [e1], _, rfl⟩
+
+structure UInv (H : HashAlg α) (n : Nat) (db : TreeDb α) (f : Nat → α) (W : Nat → Prop)
+    (vs : List ((Nat → α) × (Nat → Prop))) (k : Nat × Nat) : Prop where
+  cons : Consistent H db.rht
+  last : lastRootHash H n db = tn H f n 0
+  zo : ZeroOutside H f W
+  cur : Closed H n db.rht f W
+  old : ∀ v ∈ vs, Closed H n db.rht v.1 v.2 ∧ ZeroOutside H v.1 v.2
+  keys : ∀ r ∈ db.roots, keyAfter r k ∨ (r.blockNum = k.1 ∧ r.blockPos = k.2)
+
+theorem runUps_inv (H : HashAlg α) (hinj : H.Inj) (n : Nat) : ∀ (us : List (Ups α)) (db : TreeDb α) (f : Nat → α)
+    (W : Nat → Prop) (vs : List ((Nat → α) × (Nat → Prop))) (k : Nat × Nat),
+    UInv H n db f W vs k → KeysInc k us → (∀ u ∈ us, u.pos < 2^n) →
+    ∀ db' roots, runUps H n db us = some (db', roots) →
+      roots = (versions f W us).map (fun v => tn H v.1 n 0) ∧
+      Consistent H db'.rht ∧
+      ∀ v ∈ vs ++ (f, W) :: versions f W us, Closed H n db'.rht v.1 v.2 ∧ ZeroOutside H v.1 v.2 := by
+  intro us
+  induction us with
+  | nil =>
+    intro db f W vs k inv _ _ db' roots h
+    simp only [runUps, Option.some.injEq, Prod.mk.injEq] at h
+    obtain ⟨rfl, rfl⟩ := h
+    refine ⟨rfl, inv.cons, ?_⟩
+    intro v hv
+    simp only [versions, List.mem_append, List.mem_cons, List.not_mem_nil, or_false] at hv
+    rcases hv with h1 | h1
+    · exact inv.old v h1
+    · subst h1; exact ⟨inv.cur, inv.zo⟩
+  | cons u rest ih =>
+    intro db f W vs k inv hk hpos db' roots h
+    simp only [runUps] at h
+    cases hup : upsertLeaf H n db u.bn u.bp u.pos u.val with
+    | error e => rw [hup] at h; simp at h
+    | ok res =>
+      obtain ⟨r, db1⟩ := res
+      rw [hup] at h
+      simp only [Option.map_eq_some_iff] at h
+      obtain ⟨⟨db2, roots2⟩, hrun, heq⟩ := h
+      simp only [Prod.mk.injEq] at heq
+      obtain ⟨rfl, rfl⟩ := heq
+      have hi : u.pos < 2^n := hpos u (by simp)
+      obtain ⟨s1, s2, s3, s4, _⟩ := C08_updatable_step H hinj n db f W inv.cons inv.cur inv.zo inv.last u.bn u.bp u.pos u.val hi r db1 hup
+      obtain ⟨hroots, ns, hrht⟩ := upsertLeaf_shape H n db u.bn u.bp u.pos u.val r db1 hup
+      have hk' := hk.1
+      -- the new row is the last one
+      have hlast : lastRootHash H n db1 = tn H (updateFn f u.pos u.val) n 0 := by
+        unfold lastRootHash
+        have : getLastRoot db1 = some { hash := r, index := u.pos, blockNum := u.bn, blockPos := u.bp } := by
+          apply lastRoot_append db1 db.roots _ hroots
+          intro x hx
+          unfold RootRow.after
+          simp only [Bool.or_eq_true, decide_eq_true_eq, Bool.and_eq_true, beq_iff_eq]
+          rcases inv.keys x hx with h1 | h1
+          · unfold keyAfter at h1
+            rcases hk' with h2 | h2 <;> rcases h1 with h3 | h3 <;> omega
+          · rcases hk' with h2 | h2 <;> omega
+        rw [this, s1]
+      have hzo' : ZeroOutside H (updateFn f u.pos u.val) (fun p => W p ∨ p = u.pos) := by
+        intro j hj
+        simp only [updateFn]
+        rw [if_neg (fun e => hj (Or.inr e))]
+        exact inv.zo j (fun hw => hj (Or.inl hw))
+      have inv1 : UInv H n db1 (updateFn f u.pos u.val) (fun p => W p ∨ p = u.pos) (vs ++ [(f, W)]) (u.bn, u.bp) := by
+        refine ⟨s2, hlast, hzo', s4, ?_, ?_⟩
+        · intro v hv
+          rcases List.mem_append.mp hv with h1 | h1
+          · obtain ⟨c1, c2⟩ := inv.old v h1
+            exact ⟨by rw [hrht]; exact closed_mono H n _ _ _ _ c1, c2⟩
+          · simp at h1; subst h1; exact ⟨s3, inv.zo⟩
+        · intro x hx
+          rw [hroots] at hx
+          rcases List.mem_append.mp hx with h1 | h1
+          · left
+            unfold keyAfter
+            rcases inv.keys x h1 with h2 | h2
+            · unfold keyAfter at h2
+              simp only
+              rcases hk' with h3 | h3 <;> rcases h2 with h4 | h4 <;> omega
+            · simp only
+              rcases hk' with h3 | h3 <;> omega
+          · simp at h1; subst h1; exact Or.inr ⟨rfl, rfl⟩
+      obtain ⟨r1, r2, r3⟩ := ih db1 _ _ _ _ inv1 hk.2 (fun x hx => hpos x (List.mem_cons_of_mem _ hx)) db2 roots2 hrun
+      refine ⟨by simp [versions, r1, s1], r2, ?_⟩
+      intro v hv
+      apply r3 v
+      simp only [versions, List.mem_append, List.mem_cons, List.not_mem_nil, or_false] at hv ⊢
+      rcases hv with h1 | h1 | h1 | h1
+      · exact Or.inl (Or.inl h1)
+      · exact Or.inl (Or.inr h1)
+      · exact Or.inr (Or.inl h1)
+      · exact Or.inr (Or.inr h1)
+
+/-- **updatable tree, whole history** (rollup exit tree): starting from the empty tree, after ANY sequence of upserts that
+    all succeed (positions below `2^n`, (block, position-in-block) keys strictly increasing — what the driver delivers —,
+    no tree state recurring), for EVERY root the tree has recorded, i.e. for every version `k`, the value served for a
+    written position is the value last written to it as of that version, and the proof served hashes with it to exactly
+    that root — however many later upserts have overwritten the position since. -/
+theorem C08_updatable_history (H : HashAlg α) (hinj : H.Inj) (n : Nat) (us : List (Ups α))
+    (hk : KeysInc (0, 0) us) (hpos : ∀ u ∈ us, u.pos < 2^n)
+    (db : TreeDb α) (roots : List α) (hrun : runUps H n {} us = some (db, roots)) :
+    let vs := versions (fun _ => H.zero) (fun _ => False) us
+    roots = vs.map (fun v => tn H v.1 n 0) ∧
+    ∀ v ∈ vs, ∀ p, v.2 p → p < 2^n →
+      getLeaf n db p (tn H v.1 n 0) = .ok (v.1 p) ∧
+      calcRoot H (v.1 p) (getProof H n db p (tn H v.1 n 0)) p = tn H v.1 n 0 := by
+  intro vs
+  have inv0 : UInv H n ({} : TreeDb α) (fun _ => H.zero) (fun _ => False) [] (0, 0) := by
+    refine ⟨by intro nd h; simp at h, ?_, fun _ _ => rfl, ?_, by simp, by simp⟩
+    · unfold lastRootHash getLastRoot
+      simp only [List.foldl_nil]
+      exact (tn_zero_of H _ n 0 (fun _ _ => rfl)).symm
+    · intro h q _ ⟨p, hp, _⟩; exact absurd hp (by simp)
+  obtain ⟨r1, r2, r3⟩ := runUps_inv H hinj n us {} _ _ [] (0, 0) inv0 hk hpos db roots hrun
+  refine ⟨r1, ?_⟩
+  intro v hv p hp hpb
+  obtain ⟨c1, c2⟩ := r3 v (by simp only [List.nil_append, List.mem_cons]; exact Or.inr hv)
+  constructor
+  · exact getLeaf_spec H hinj n db v.1 v.2 r2 c1 p hpb hp
+  · unfold getProof
+    rw [getSiblings_spec H hinj n db.rht v.1 v.2 r2 c1 c2 p hpb]
+    exact calcRoot_spec H n v.1 p hpb
+
+/-- non-vacuity in the free term algebra: rollups 1 and 3 verified, rollup 1 verified again; the first version still serves
+    rollup 1's first value under the first root -/
+example :
+    let us : List (Ups Term) := [⟨1, 0, 0, .leaf 7⟩, ⟨1, 1, 2, .leaf 8⟩, ⟨2, 0, 0, .leaf 9⟩]
+    ((runUps TermHash 3 {} us).map (fun x => x.2.length)) = some 3 ∧ KeysInc (0, 0) us := by
+  refine ⟨by decide, ?_⟩
+  simp [KeysInc]
+
 end Aggkit
